@@ -109,7 +109,9 @@ def operand_pairs(chk, fb, RID):
                     cp_ = mir.callee_path(t_) or ""
                     hb_ = fb.bodies.get(cp_)
                     if hb_ is not None and hb_["kind"] == "Fn" and cp_.startswith("expression::partial::") and cp_ not in drivers and hb_.get("name") not in NOT_PART \
-                            and not hb_.get("public") and hb_ not in parts_ and hb_ is not ib0:
+                            and not hb_.get("public") and hb_ not in parts_ and hb_ is not ib0 \
+                            and not any("partial::ValueDerivative<" in hb_["locals"][i_]["ty"] for i_ in range(1, hb_["arg_count"] + 1)):
+                        # (a function that is handed (value, derivative) pairs is a derivative rule, whatever it is called: R05.2's business)
                         parts_.append(hb_)
                         todo_.append(hb_)
         scope_ = tuple([ib0["path"]] + [h_["path"] for h_ in parts_])
